@@ -115,7 +115,7 @@ def run_shard(ctx):
             for bits in (0, 255, 16, 1):
                 vec = gopt.vector_from_bits(bits)
                 ctx.run_fixed({"src": {"": src}, "opts": vec}, lambda c: check_case(c, ctx.stats))
-    hyp_search(ctx, cases(), lambda c: check_case(c, ctx.stats), ctx.scale(250, 8000))
+    hyp_search(ctx, cases(), lambda c: check_case(c, ctx.stats), ctx.scale(250, 3000))
 
 
 def replay(case):
